@@ -66,7 +66,12 @@ def fstw_requests(rng, widths, maxlen, nrandom):
             last = None
             for _ in range(n):
                 t += rng.choice([0, 1, 2])
-                v = ("".join(rng.choice("abz09 ") for _ in range(rng.choice([0, 1, 4, 30]))).encode().hex() or "-") if (last is None or rng.random() < 0.7) else last
+                if rng.random() < 0.2:
+                    # values that are not valid UTF-8 (pairwise distinct after the lossy conversion), often emitted again unchanged
+                    fresh = rng.choice([b"caf\xe9", b"\xff\xfe", b"a\x80b", b"\xc3(", b"\xe2\x82", b"ok\xf0\x9f"]).hex()
+                else:
+                    fresh = "".join(rng.choice("abz09 ") for _ in range(rng.choice([0, 1, 4, 30]))).encode().hex() or "-"
+                v = fresh if (last is None or rng.random() < 0.6) else last
                 last = v
                 parts.append(f"{t}={v}")
             rq.append(f"fstw s {','.join(parts)}")
@@ -121,7 +126,7 @@ def run(ctx):
     proof = core.prove("C10")
     if ok:
         rq = corpus_requests("C10") + requests(ctx) + corpus_pairs(ctx.tier == "quick")
-        model = ctx.model(rq)
+        model = [core.lossy_strings(m) for m in ctx.model(rq)]
         for tag, binary in (("release", ctx.wvh), ("checked", ctx.wvh_checked)):
             if binary is None:
                 continue
